@@ -599,7 +599,9 @@ fn format_expression_or_type(
 ) -> Result<(), FormatError> {
     match value {
         ast::ExpressionOrType::Expression(expr) | ast::ExpressionOrType::Either(expr, _) => {
-            format_expression_no_seq(expr, output, context)
+            // Inside a template argument list > would end the list and a comma would end the argument
+            // Shifts are the tightest binding operators that may contain a >
+            format_subexpression(expr, 7, OperatorSide::CommaList, output, context)
         }
         ast::ExpressionOrType::Type(ty) => format_type_id(ty, output, context),
     }
